@@ -25,12 +25,17 @@ Unit(gt, m) == /\ k < Len(exp)
                /\ m = k + 1              \* the next observed unit equals the next expected one
                /\ gt = exp[k + 1]
                /\ k' = k + 1 /\ UNCHANGED exp
+\* a comment between the declarations of an INLINE list reported as a unit of its own (the statement lists "top-level
+\* comments" among the units and does not say whether these are such): accepted, as is not reporting it
+OptComment(gt) == gt = "Comment" /\ UNCHANGED gvars
 Finish == k = Len(exp) /\ UNCHANGED gvars      \* nothing missing
 
 TInit == l = 1 /\ bad = FALSE /\ exp = <<>> /\ k = 0
 IsStart == e.ev = "Open"
 Returned == e.out = "ret"
-Step == CASE e.ev = "Unit" -> Unit(e.gt, e.m)
+Optional == "optional" \in DOMAIN e /\ e.optional
+Step == CASE e.ev = "Unit" /\ Optional -> OptComment(e.gt)
+          [] e.ev = "Unit" /\ ~Optional -> Unit(e.gt, e.m)
           [] e.ev = "Finish" -> Finish
           [] OTHER -> FALSE
 
